@@ -793,6 +793,8 @@ func init() {
 			}
 			// state kept outside the pools, results still held by the caller, overlapping executions
 			items = append(items, callsItems(tier, "C07", "clean-despite-violation", "depends-on-history", "nested-call-differs", "earlier-result-changed", "callers-value-modified", "panic")...)
+			// "...on the global configuration at that moment": message tables edited in place between calls
+			items = append(items, Item{Name: "message-table-edited-between-calls", MaxDevs: -1, Run: c07TableEditScenario})
 			return items
 		},
 		Extra: func(tier string) map[string]any {
